@@ -605,6 +605,11 @@ def spec_derived(_line):
 def check(run):
     run.prove(MODULE, THEOREMS)
     run.source_tie(['SrcBounds'], 'GeoVerif.Props.C09Src', SRC_THEOREMS)
+    # bounds / circumscribing circles of the curved shapes against the vertices the *source* generates for them
+    run.source_tie(['SrcCurvedGen'], 'GeoVerif.Props.C09SrcCurved', ['GV.C09SrcCurved.' + t for t in (
+        'ellipseCircle_eq', 'ringBounds_eq', 'ringBounds_ok', 'src_ellipse_circle_encloses', 'src_ring_circle_encloses',
+        'src_circle_circle_encloses')]
+        + ['GV.C03SrcGen.circleBounds_eq', 'GV.C03SrcGen.ellipseBounds_eq'])
     rng = run.rng
     kinds = {}
 
